@@ -112,13 +112,16 @@ func (m *Mutex) Unlock() {
 	m.waiters = nil
 }
 
-// RWMutex mirrors sync.RWMutex (writer preference is not modelled).
+// RWMutex mirrors sync.RWMutex (writer preference is not modelled). Happens-before
+// edges follow the Go memory model: Unlock -> later Lock/RLock; RUnlock -> later Lock
+// only (two read sections are NOT ordered with respect to each other).
 type RWMutex struct {
 	real    sync.RWMutex
 	writer  bool
 	readers int
 	waiters []int
-	clock   []uint32
+	wclock  []uint32 // released by Unlock
+	rclock  []uint32 // released by RUnlock
 }
 
 func (m *RWMutex) Lock() {
@@ -132,7 +135,8 @@ func (m *RWMutex) Lock() {
 		vsched.Block(fmt.Sprintf("RWMutex %p", m))
 	}
 	m.writer = true
-	vsched.Acquire(&m.clock)
+	vsched.Acquire(&m.wclock)
+	vsched.Acquire(&m.rclock)
 }
 
 func (m *RWMutex) Unlock() {
@@ -141,7 +145,7 @@ func (m *RWMutex) Unlock() {
 		return
 	}
 	vsched.SyncPoint(fmt.Sprintf("RWMutex.Unlock %p", m))
-	vsched.Release(&m.clock)
+	vsched.Release(&m.wclock)
 	m.writer = false
 	m.wakeAll()
 }
@@ -157,7 +161,7 @@ func (m *RWMutex) RLock() {
 		vsched.Block(fmt.Sprintf("RWMutex %p (read)", m))
 	}
 	m.readers++
-	vsched.Acquire(&m.clock)
+	vsched.Acquire(&m.wclock)
 }
 
 func (m *RWMutex) RUnlock() {
@@ -166,7 +170,7 @@ func (m *RWMutex) RUnlock() {
 		return
 	}
 	vsched.SyncPoint(fmt.Sprintf("RWMutex.RUnlock %p", m))
-	vsched.Release(&m.clock)
+	vsched.Release(&m.rclock)
 	m.readers--
 	m.wakeAll()
 }
@@ -227,18 +231,31 @@ func (w *WaitGroup) Wait() {
 	vsched.Acquire(&w.clock)
 }
 
-// Pool mirrors sync.Pool with a deterministic LIFO free list under exploration.
+// Pool mirrors sync.Pool with a deterministic LIFO free list that never drops
+// items (GC timing is not an input the harness owns, and a list that is part
+// of the object lets the state fingerprint see what the pool holds). Outside an
+// exploration it is guarded by a real mutex.
 type Pool struct {
 	New   func() interface{}
-	real  sync.Pool
+	mu    sync.Mutex
 	items []interface{}
 	clock []uint32
 }
 
 func (p *Pool) Get() interface{} {
 	if !vsched.Active() {
-		p.real.New = p.New
-		return p.real.Get()
+		p.mu.Lock()
+		if n := len(p.items); n > 0 {
+			x := p.items[n-1]
+			p.items = p.items[:n-1]
+			p.mu.Unlock()
+			return x
+		}
+		p.mu.Unlock()
+		if p.New != nil {
+			return p.New()
+		}
+		return nil
 	}
 	vsched.SyncPoint(fmt.Sprintf("Pool.Get %p", p))
 	if n := len(p.items); n > 0 {
@@ -254,14 +271,16 @@ func (p *Pool) Get() interface{} {
 }
 
 func (p *Pool) Put(x interface{}) {
-	if !vsched.Active() {
-		p.real.Put(x)
-		return
-	}
-	vsched.SyncPoint(fmt.Sprintf("Pool.Put %p", p))
 	if x == nil {
 		return
 	}
+	if !vsched.Active() {
+		p.mu.Lock()
+		p.items = append(p.items, x)
+		p.mu.Unlock()
+		return
+	}
+	vsched.SyncPoint(fmt.Sprintf("Pool.Put %p", p))
 	vsched.Release(&p.clock)
 	p.items = append(p.items, x)
 }
